@@ -9,7 +9,7 @@ Local Open Scope nat_scope.
 
 Section Free.
 Variable rc : bool.
-Context {P : Z -> Prop}.
+Context {P : Z -> Prop} {st : bool}.
 
 Definition tris_in (g : sgraph) (tris : list nat) : Prop :=
   Forall (fun o => exists f, tri_node g f o) tris.
@@ -22,9 +22,9 @@ Proof.
 Qed.
 
 Lemma add_free_tail occ root : root <> 0 -> forall fs s root' s',
-  tables_ok P s -> Forall (fun f => 1 <= f /\ @PF P f) fs -> sg_label (ls_g s) root = Some GAnd ->
+  tables_ok P st s -> Forall (fun f => 1 <= f /\ @PF P f) fs -> sg_label (ls_g s) root = Some GAnd ->
   add_free rc occ fs root s = Some (root', s') ->
-  root' = root /\ tables_ok P s' /\ ext (ls_g s) (ls_g s') [root] /\
+  root' = root /\ tables_ok P st s' /\ ext (ls_g s) (ls_g s') [root] /\
   exists tris, sg_out (ls_g s') root = tris ++ sg_out (ls_g s) root /\ tris_in (ls_g s') tris.
 Proof.
   intros Hr0. induction fs as [|i r IH]; intros s root' s' Hok Hfs Hlr H; cbn [add_free] in H.
@@ -51,8 +51,8 @@ Definition free_result (s : lstate) (root' : nat) (s' : lstate) : Prop :=
    exists tris, sg_out (ls_g s') root' = tris ++ [0] /\ tris_in (ls_g s') tris).
 
 Lemma add_free_spec occ : forall fs s root' s',
-  tables_ok P s -> sg_alive (ls_g s) 0 = true -> Forall (fun f => 1 <= f /\ @PF P f) fs ->
-  add_free rc occ fs 0 s = Some (root', s') -> tables_ok P s' /\ free_result s root' s'.
+  tables_ok P st s -> sg_alive (ls_g s) 0 = true -> Forall (fun f => 1 <= f /\ @PF P f) fs ->
+  add_free rc occ fs 0 s = Some (root', s') -> tables_ok P st s' /\ free_result s root' s'.
 Proof.
   induction fs as [|i r IH]; intros s root' s' Hok H0 Hfs H; cbn [add_free] in H.
   - injection H as <- <-. split; [exact Hok|now left].
@@ -61,22 +61,23 @@ Proof.
     destruct (add_node rc GAnd (ls_g s)) as [x g1] eqn:Ha.
     destruct (ls_add_edge x 0 (with_g s g1)) as [s1|] eqn:E1; [|discriminate]. cbn [option_map] in H.
     destruct (add_literal_node rc i x s1) as [s2|] eqn:E2; [|discriminate].
-    destruct Hok as [[HI Hl Hp Hj] Ht].
+    destruct Hok as [[HI Hl Hp Hj Hsr] Ht].
     pose proof (add_node_fresh rc _ _ _ _ HI Ha) as Hfresh.
     pose proof (add_node_label_new rc _ _ _ _ HI Ha) as Hlx1.
     pose proof (add_node_no_out rc _ _ _ _ HI Ha) as Hox1.
     pose proof (add_node_ext rc _ _ _ _ [x] HI Ha) as He01.
     assert (Hxd : sg_alive (ls_g s) x = false) by (unfold sg_alive; now rewrite Hfresh).
     assert (Hx0 : x <> 0) by (intros ->; congruence).
-    assert (Hc0 : core_ok P (with_g s g1)).
+    assert (Hc0 : core_ok P st (with_g s g1)).
     { constructor; cbn [with_g ls_g ls_lits ls_tri].
       - apply (add_node_Inv rc _ _ _ _ HI Ha).
       - intros l z Hz. apply (ext_label_some _ _ _ _ _ He01). now apply Hl.
       - intros z l Hz. destruct (Nat.eq_dec z x) as [->|Hzx]; [congruence|].
         rewrite (add_node_label_old rc _ _ _ _ Ha z Hzx) in Hz. now apply (Hp z).
       - intros z l Hz. destruct (Nat.eq_dec z x) as [->|Hzx]; [congruence|].
-        rewrite (add_node_label_old rc _ _ _ _ Ha z Hzx) in Hz. now apply (Hj z). }
-    destruct (ls_add_edge_core x 0 (with_g s g1) s1 [x] Hc0 (or_introl eq_refl) E1) as [Hc1 [He1 [Htri1 [_ Ho1]]]].
+        rewrite (add_node_label_old rc _ _ _ _ Ha z Hzx) in Hz. now apply (Hj z).
+      - intros Hst. exact (add_node_srcs rc _ _ _ _ HI Ha (Hsr Hst)). }
+    destruct (ls_add_edge_core x 0 (with_g s g1) s1 [x] Hc0 (or_introl eq_refl) (fun _ => gate_and _ _ Hlx1) E1) as [Hc1 [He1 [Htri1 [_ Ho1]]]].
     cbn [with_g ls_g ls_tri] in He1, Htri1, Ho1.
     pose proof (ext_trans _ _ _ _ He01 He1) as He01'.
     assert (Ht1 : tris_ok s1).
